@@ -100,6 +100,7 @@ type RunCfg struct {
 	OutKinds       bool   // a file-typed output may be missing, a symlink, or a path outside the pipestance (C13)
 	Companions     bool   // stages may write x.idx next to an output file x
 	ChunkRes       bool   // splits return per-chunk resource requests
+	ChunkVMem bool // ... and per-chunk address space requests
 	SlowLabel      string // tasks whose label contains this get SlowDiv times less weight
 	SlowDiv        int
 	Restarts       int  // maximal number of restarts the operator performs
@@ -231,14 +232,18 @@ func (r *Run) jobFault(j *JobRec) string {
 	return ""
 }
 
-func (r *Run) chunkResources(j *JobRec, i int) (float64, float64) {
+func (r *Run) chunkResources(j *JobRec, i int) (float64, float64, float64) {
 	if !r.Cfg.ChunkRes {
-		return 0, 0
+		return 0, 0, 0
 	}
 	h := hash64(r.FCfg.Salt, j.Key(), fmt.Sprint(i))
 	ths := []float64{0, 1, 2, 0.5, 3, -1, 16, 1.5, 2.5, 4.01}
 	mems := []float64{0, 1, 2, 0.25, 5, -2, 64, 1.5, 6.5, 3.99}
-	return ths[h%uint64(len(ths))], mems[(h/8)%uint64(len(mems))]
+	vm := 0.0
+	if r.Cfg.ChunkVMem {
+		vm = []float64{0, 0, 0, 2, 2.5, -1, 64, 0.75}[(h/128)%8]
+	}
+	return ths[h%uint64(len(ths))], mems[(h/8)%uint64(len(mems))], vm
 }
 
 // fileRec finds the record of a file by its real or its reported path.
